@@ -2,6 +2,7 @@ import DnsVerif.Lemmas.NameSound
 import DnsVerif.Spec.Wire
 import DnsVerif.Lemmas.SoundMsg
 import DnsVerif.Spec.Formats
+import DnsVerif.Lemmas.ExtraB
 
 /-! # C03 — an accepted message means exactly what the RFCs say its bytes mean
 
@@ -69,6 +70,88 @@ swap or a short mask: the grammar is written from the RFC field order) -/
 theorem value_on_wire {d d' : D} {w n : Nat} (hd : D.Ok d) (h : decField d (.num w) = .ok (.num n, d')) :
     beVal ((d.buf.drop d.off).take w) = n ∧ BytesAt d.buf d.off (beBytes w n) ∧ n < 256 ^ w ∧ d'.off = d.off + w :=
   Sound.value_on_wire hd h
+
+/-! ## The accessors of a record are its wire header
+
+In the model the accessors of a record are the fields `rr.name`, `rr.ty`, `rr.cls`, `rr.ttl` of `RR`. For OPT
+(type 41) CLASS and TTL carry the payload size / extended RCODE, version, DO: `C15.opt_fields_position`.
+Proofs: Lemmas/ExtraB.lean. -/
+
+/-- the owner name of an accepted stand-alone record is at offset 0 and ends at `e`; TYPE, CLASS and TTL are the
+eight octets at `e`, holding exactly the values the accessors return (which are in range, so the octets
+determine them: `header_values_on_wire`) -/
+theorem header_on_wire {b : Bytes} {rr : RR} {d : D} (hb : b.length < 2 ^ 63) (h : decodeRR b = .ok (rr, d))
+    (hty : rr.ty ≠ 41) :
+    ∃ e, NameRefAt b false 0 rr.name e ∧
+      BytesAt b e (beBytes 2 rr.ty ++ beBytes 2 rr.cls ++ beBytes 4 rr.ttl) ∧
+      rr.ty < 65536 ∧ rr.cls < 65536 ∧ rr.ttl < 2 ^ 32 := ExtraB.decodeRR_header hb h hty
+
+/-- the accessor form: each accessor is the big-endian value of its header octets -/
+theorem header_values_on_wire {b : Bytes} {rr : RR} {d : D} (hb : b.length < 2 ^ 63) (h : decodeRR b = .ok (rr, d))
+    (hty : rr.ty ≠ 41) :
+    ∃ e, NameRefAt b false 0 rr.name e ∧ e + 10 ≤ b.length ∧
+      rr.ty = beVal ((b.drop e).take 2) ∧ rr.cls = beVal ((b.drop (e + 2)).take 2) ∧
+      rr.ttl = beVal ((b.drop (e + 4)).take 4) := ExtraB.decodeRR_header_values hb h hty
+
+/-- the same for every record (other than OPT) of every accepted message: its owner name is found at some
+offset `off ≥ 12` of the message and its header right after the name -/
+theorem msg_headers_on_wire {b : Bytes} {m : Msg} {d : D} (h : decodeDns b = .ok (m, d)) :
+    ∀ rr ∈ Sound.Msg.rrs m, rr.ty ≠ 41 → ∃ off e, 12 ≤ off ∧ e + 10 ≤ b.length ∧
+      NameRefAt b false off rr.name e ∧
+      BytesAt b e (beBytes 2 rr.ty ++ beBytes 2 rr.cls ++ beBytes 4 rr.ttl) ∧
+      rr.ty = beVal ((b.drop e).take 2) ∧ rr.cls = beVal ((b.drop (e + 2)).take 2) ∧
+      rr.ttl = beVal ((b.drop (e + 4)).take 4) := ExtraB.decodeDns_headers h
+
+/-- positional form (which `off`): the record `rr` that follows the records `pre` in the concatenated answer,
+authority and additional sections starts exactly where `pre` ends (`pre` starts where the question section
+ends), its header follows its name, its RDLENGTH is at `e + 8`, and the records `post` fill the rest of the
+message exactly -/
+theorem msg_header_at_position {b : Bytes} {m : Msg} {d : D} {pre post : List RR} {rr : RR}
+    (h : decodeDns b = .ok (m, d)) (hs : Sound.Msg.rrs m = pre ++ rr :: post) (hty : rr.ty ≠ 41) :
+    ∃ e1 off e rdlen, QuestionsAt b false 12 m.qs e1 ∧ RRsAt b false e1 pre off ∧ 12 ≤ off ∧
+      NameRefAt b false off rr.name e ∧
+      BytesAt b e (beBytes 2 rr.ty ++ beBytes 2 rr.cls ++ beBytes 4 rr.ttl) ∧
+      BytesAt b (e + 8) (beBytes 2 rdlen) ∧ RRsAt b false (e + 10 + rdlen) post b.length ∧
+      rr.ty < 65536 ∧ rr.cls < 65536 ∧ rr.ttl < 2 ^ 32 := ExtraB.decodeDns_header_at h hs hty
+
+/-- non-vacuity: `a. 60 IN A 10.0.0.1` stand-alone, and as the compressed answer of a response -/
+private def exR : Bytes := [1, 97, 0, 0, 1, 0, 1, 0, 0, 0, 60, 0, 4, 10, 0, 0, 1]
+private def exRR : RR := ⟨[[97]], 1, 1, 60, .fields [.bytes [10, 0, 0, 1]]⟩
+
+set_option maxRecDepth 8192 in
+private theorem exR_decoded : decodeRR exR = .ok (exRR, { buf := exR, off := 17, lim := 17, cost := 21 }) := rfl
+
+example : ∃ e, NameRefAt exR false 0 [[97]] e ∧ BytesAt exR e (beBytes 2 1 ++ beBytes 2 1 ++ beBytes 4 60) ∧
+    (1 : Nat) < 65536 ∧ (1 : Nat) < 65536 ∧ (60 : Nat) < 2 ^ 32 :=
+  header_on_wire (rr := exRR) (by decide) exR_decoded (by decide)
+
+private def exB : Bytes :=
+  [0x12, 0x34, 0x81, 0x80, 0, 1, 0, 1, 0, 0, 0, 0, 1, 97, 0, 0, 1, 0, 1,
+   192, 12, 0, 1, 0, 1, 0, 0, 0, 60, 0, 4, 10, 0, 0, 1]
+
+private def exM : Msg :=
+  { id := 0x1234
+    flags := ⟨true, 0, false, false, true, true, false, false, 0⟩
+    qs := [⟨[[97]], 1, 1⟩]
+    an := [exRR]
+    ns := []
+    ar := [] }
+
+set_option maxRecDepth 8192 in
+private theorem exB_decoded : decodeDns exB = .ok (exM, { buf := exB, off := 35, lim := 35, cost := 42 }) := rfl
+
+example : ∃ off e, 12 ≤ off ∧ e + 10 ≤ exB.length ∧ NameRefAt exB false off exRR.name e ∧
+    BytesAt exB e (beBytes 2 exRR.ty ++ beBytes 2 exRR.cls ++ beBytes 4 exRR.ttl) ∧
+    exRR.ty = beVal ((exB.drop e).take 2) ∧ exRR.cls = beVal ((exB.drop (e + 2)).take 2) ∧
+    exRR.ttl = beVal ((exB.drop (e + 4)).take 4) :=
+  msg_headers_on_wire exB_decoded exRR (by simp [Sound.Msg.rrs, exM]) (by decide)
+
+example : ∃ e1 off e rdlen, QuestionsAt exB false 12 exM.qs e1 ∧ RRsAt exB false e1 [] off ∧ 12 ≤ off ∧
+    NameRefAt exB false off exRR.name e ∧
+    BytesAt exB e (beBytes 2 exRR.ty ++ beBytes 2 exRR.cls ++ beBytes 4 exRR.ttl) ∧
+    BytesAt exB (e + 8) (beBytes 2 rdlen) ∧ RRsAt exB false (e + 10 + rdlen) [] exB.length ∧
+    exRR.ty < 65536 ∧ exRR.cls < 65536 ∧ exRR.ttl < 2 ^ 32 :=
+  msg_header_at_position (pre := []) (post := []) exB_decoded rfl (by decide)
 
 /-! ## The record table is what the RFCs say (independent transcription) -/
 
